@@ -150,12 +150,43 @@ theorem queues_QOk (exts : Array Ext) (nbF : Nat) (hv : AllValid exts nbF) : QOk
     obtain ⟨j, hj⟩ := List.mem_iff_getElem?.mp he.1
     exact ⟨hv j e (by simpa using hj), by simpa using he.2⟩
 
-/-- For EVERY array of valid extensions the action sequence of the generator ends normally and writes
-    `serAll` of the per-frame queues. -/
-theorem genOps_full (exts : Array Ext) (nbF : Nat) (hnf : nbF ≤ 48) (hv : AllValid exts nbF) :
-    (genOps exts nbF).res = .ok () ∧
-    content false (genOps exts nbF).ops = serAll exts.size (queues exts nbF) 0 0 := by
-  obtain ⟨mn, mx, hscan, hI⟩ := scanLoop_spec exts nbF hv 0 _ _ (scanInv_init exts nbF) (Nat.zero_le _)
+theorem sortedFrom_lengthIF (exts : Array Ext) (nbF : Nat) (hv : AllIF exts nbF) : (sortedFrom exts nbF 0).length = exts.size := by
+  have := sortedFrom_length_aux exts nbF nbF 0 (by omega)
+  have h0 : (exts.toList.filter (fun e => e.frame.toNat < 0)).length = 0 := by
+    rw [List.length_eq_zero_iff, List.filter_eq_nil_iff]
+    intro a _; rw [decide_eq_true_eq]; omega
+  have h1 : exts.toList.filter (fun e => e.frame.toNat < nbF) = exts.toList := by
+    rw [List.filter_eq_self]
+    intro a ha
+    obtain ⟨j, hj⟩ := List.mem_iff_getElem?.mp ha
+    have hva := hv j a (by simpa using hj)
+    have := hva.fr_lo; have := hva.fr_hi
+    rw [decide_eq_true_eq]; omega
+  rw [h0, h1, Array.length_toList] at this
+  omega
+
+theorem total_queuesIF (exts : Array Ext) (nbF : Nat) (hv : AllIF exts nbF) : total (queues exts nbF) = exts.size := by
+  rw [← sortedFrom_lengthIF exts nbF hv]
+  unfold sortedFrom queues total
+  rw [Nat.sub_zero, ← List.range_eq_range', List.length_flatMap, List.map_map]
+  rfl
+
+theorem seg_mem_idx {exts : Array Ext} {i hi g : Nat} {e : Ext} (he : e ∈ seg exts i hi g) : ∃ j : Nat, exts[j]? = some e := by
+  unfold seg at he
+  rw [List.mem_filter] at he
+  obtain ⟨j, hj⟩ := List.mem_iff_getElem?.mp (List.mem_of_mem_take he.1)
+  rw [List.getElem?_drop] at hj
+  exact ⟨_, by simpa using hj⟩
+
+/-- The action sequence of the generator for EVERY array whose IDs and frame indices are valid, both outcomes:
+    with admissible payload lengths it ends normally and writes `serAll` of the per-frame queues;
+    with an inadmissible payload length anywhere (negative, or more than 1 for a short ID) it ends in `OPUS_BAD_ARG`. -/
+theorem genOps_gen (exts : Array Ext) (nbF : Nat) (hnf : nbF ≤ 48) (hv : AllIF exts nbF) (hD : ExtsOk exts) :
+    ((∀ (j : Nat) (e : Ext), exts[j]? = some e → LenOk e) →
+      (genOps exts nbF).res = .ok () ∧
+      content false (genOps exts nbF).ops = serAll exts.size (queues exts nbF) 0 0) ∧
+    ((∃ (j : Nat) (e : Ext), exts[j]? = some e ∧ ¬ LenOk e) → (genOps exts nbF).res = .err .badArg) := by
+  obtain ⟨mn, mx, hscan, hI⟩ := scanLoop_specIF exts nbF hv 0 _ _ (scanInv_init exts nbF) (Nat.zero_le _)
   have hFI : FInv exts mx nbF 0 { written := 0, currFrame := 0, minIdx := mn, repIdx := mn } := by
     refine ⟨hI.lmn, hI.lmn, fun _ _ _ => rfl, ?_, ?_, Nat.le_refl _⟩
     · intro g _ hg e he hlt
@@ -166,17 +197,63 @@ theorem genOps_full (exts : Array Ext) (nbF : Nat) (hnf : nbF ≤ 48) (hv : AllV
       rcases hI.first g hg with h | ⟨h, _⟩
       · simp only; omega
       · simp only; omega
-  obtain ⟨sF, h1, h2, h3⟩ := wFramesLoop_spec hv hnf hI.lmx hI.mxle hI.lastp 0 _ hFI
-    (by simp only; rw [queues_eq_remsFrom hI, total_queues exts nbF hv]; omega)
-  simp only at h3
-  rw [queues_eq_remsFrom hI] at h3
+  have hcount : (0 : Nat) + total (remsFrom exts mx mn nbF 0) = exts.size := by
+    rw [queues_eq_remsFrom hI, total_queuesIF exts nbF hv]; omega
   unfold genOps
   rw [hscan, W.lift_ok_bind]
   simp only
-  rw [W.bind_of_ok _ h1]
-  have : ¬ (sF.written ≠ exts.size) := by omega
-  simp only [this, if_false, W.pure_eq, List.append_nil]
-  exact ⟨trivial, h3⟩
+  constructor
+  · intro hL
+    obtain ⟨sF, h1, h2, h3⟩ := wFramesLoop_spec hv hD hnf hI.lmx hI.mxle hI.lastp 0 _ hFI hcount
+      (fun g _ _ x hx => by obtain ⟨j, hj⟩ := seg_mem_idx hx; exact hL j x hj)
+    simp only at h3
+    rw [queues_eq_remsFrom hI] at h3
+    rw [W.bind_of_ok _ h1]
+    have : ¬ (sF.written ≠ exts.size) := by omega
+    simp only [this, if_false, W.pure_eq, List.append_nil]
+    exact ⟨trivial, h3⟩
+  · rintro ⟨j, e, he, hb⟩
+    have hif := hv j e he
+    have hg : e.frame.toNat < nbF := by have := hif.fr_lo; have := hif.fr_hi; omega
+    refine W.bind_of_err _ (wFramesLoop_bad hv hD hnf hI.lmx hI.mxle hI.lastp 0 _ hFI hcount
+      ⟨e.frame.toNat, Nat.zero_le _, hg, e, ?_, hb⟩)
+    unfold remQ
+    simp only
+    rw [seg_all hI hg]
+    unfold allOf
+    rw [List.mem_filter]
+    exact ⟨List.mem_iff_getElem?.mpr ⟨j, by simpa using he⟩, by simp⟩
+
+/-- For EVERY array of valid extensions the action sequence of the generator ends normally and writes
+    `serAll` of the per-frame queues. -/
+theorem genOps_full (exts : Array Ext) (nbF : Nat) (hnf : nbF ≤ 48) (hv : AllValid exts nbF) :
+    (genOps exts nbF).res = .ok () ∧
+    content false (genOps exts nbF).ops = serAll exts.size (queues exts nbF) 0 0 :=
+  (genOps_gen exts nbF hnf (fun j e h => (hv j e h).toIF) (allValid_extsOk hv)).1 (fun j e h => (hv j e h).lenOk)
+
+/-- **Inadmissible payload length.**  IDs and frame indices valid, but some extension has a negative length or a
+    short ID (3..31) with a length above 1: `generate` never succeeds.  It returns `OPUS_BAD_ARG`, unless one of the
+    buffer checks made on the way to that extension fails first (`OPUS_BUFFER_TOO_SMALL`, as in C); if the buffer
+    passes all those checks (`req … ≤ len`) the result is exactly `OPUS_BAD_ARG`. -/
+theorem generate_badLen (dry : Bool) (len : Int) (exts : Array Ext) (nbF : Nat) (pad : Bool) (hl : 0 ≤ len)
+    (hnf : nbF ≤ 48) (hv : AllIF exts nbF) (hD : ExtsOk exts)
+    (hB : ∃ (j : Nat) (e : Ext), exts[j]? = some e ∧ ¬ LenOk e) :
+    generate dry len exts nbF pad =
+      (if needsPass len 0 (genOps exts nbF).ops then .err .badArg else .err .bufferTooSmall) ∧
+    (req (genOps exts nbF).ops ≤ len → generate dry len exts nbF pad = .err .badArg) := by
+  have hres := (genOps_gen exts nbF hnf hv hD).2 hB
+  have heq : generate dry len exts nbF pad =
+      (if needsPass len 0 (genOps exts nbF).ops then .err .badArg else .err .bufferTooSmall) := by
+    rw [generate_eq dry len exts nbF pad hD hl (by omega)]
+    simp only [Int.toNat_natCast, hres]
+  refine ⟨heq, fun hr => ?_⟩
+  rw [heq, if_pos (needsPass_of_req len _ 0 (by simpa using hr))]
+
+theorem allIF_of_all (exts : Array Ext) (nbF : Nat)
+    (h : ∀ e ∈ exts.toList, 3 ≤ e.id ∧ e.id ≤ 127 ∧ 0 ≤ e.frame ∧ e.frame < (nbF : Int)) : AllIF exts nbF := by
+  intro j e he
+  have := h e (List.mem_iff_getElem?.mpr ⟨j, by simpa using he⟩)
+  exact ⟨this.1, this.2.1, this.2.2.1, this.2.2.2⟩
 
 /-! ### The full round trip -/
 
